@@ -180,8 +180,31 @@ if case['kind'] == 'concat':
 else:
     a = np.array(sorted(int(F(m.get(f'hid[{{k}}]', k))) for k in range(case['Na'])), dtype=np.int64)
     b = np.array([int(F(m.get(f'phid[{{k}}]', k))) for k in range(case['Nb'])], dtype=np.int64)
+    exp = [int((a < v).sum()) for v in b]
     r = ah._searchsorted_parallel(a, b)
-    if r.tolist() != [int((a < v).sum()) for v in b]: bad.append(f'{{r.tolist()}} for ids {{a.tolist()}} needles {{b.tolist()}}')
+    if r.tolist() != exp: bad.append(f'{{r.tolist()}} for ids {{a.tolist()}} needles {{b.tolist()}}')
+    # the iterations of a prange may run in any order: execute the real function body (py_func) under other permitted
+    # orders -- a result that depends on the order is a data race between iterations
+    import numba
+    _pr = numba.prange
+    for nm, order in (('reverse order', lambda *x: list(range(*x))[::-1]), ('odd iterations first', lambda *x: list(range(*x))[1::2] + list(range(*x))[0::2])):
+        numba.prange = order
+        try:
+            for trial in range(2):
+                r2 = np.asarray(ah._searchsorted_parallel.py_func(a, b))
+                if r2.tolist() != exp:
+                    bad.append(f'py_func with prange iterations in {{nm}}: {{r2.tolist()}} instead of {{exp}} (needles {{b.tolist()}})'); break
+        except Exception as ex:
+            bad.append(f'py_func with prange iterations in {{nm}}: raised {{type(ex).__name__}}: {{ex}}')
+        finally:
+            numba.prange = _pr
+    # and the compiled kernel on a long table whose equal runs straddle the per-thread chunk boundaries
+    if not bad and numba.config.NUMBA_NUM_THREADS > 1:
+        A = np.arange(1000, dtype=np.int64) * 3; B = np.repeat(A, 397)
+        E = np.searchsorted(A, B)
+        for trial in range(5):
+            if not np.array_equal(ah._searchsorted_parallel(A, B), E):
+                bad.append(f'compiled kernel, {{numba.get_num_threads()}} threads, 1000 ids x 397 particles each: result differs from np.searchsorted (trial {{trial}})'); break
 print('case', case)
 for b_ in bad: print('  ', b_)
 sys.exit(1 if bad else 0)
